@@ -49,14 +49,17 @@ def Criterion.eval (c : Criterion) (ts : TStatus) (clock : Rat) (keyCost : Nat) 
       | none => false)
 
 /-- `SimulatorCallback._modify_stop_criterion`: a wall-clock bound becomes a bound on the
-`st_tuner_time` metric; NOTE the original `min_metric_value` / `max_metric_value` are dropped
-(as in the code). Without a wall-clock bound the criterion is left alone. -/
+`st_tuner_time` metric, added to the user's `max_metric_value` thresholds (`dict` update: a
+user threshold on `st_tuner_time` itself is overwritten); every other field is kept. Without a
+wall-clock bound the criterion is left alone. (Before commit "fix: metric thresholds ... were
+dropped" of /repo the rewrite dropped `min_metric_value` / `max_metric_value`.) -/
 def Criterion.simRewrite (c : Criterion) (keyTunerTime : Nat) : Criterion :=
   match c.maxWallclock with
   | none => c
   | some w =>
     { maxWallclock := none, maxEvals := c.maxEvals, maxStarted := c.maxStarted,
       maxCompleted := c.maxCompleted, maxCost := c.maxCost, maxFinished := c.maxFinished,
-      minMetric := none, maxMetric := some [(keyTunerTime, w)] }
+      minMetric := c.minMetric,
+      maxMetric := some (((c.maxMetric.getD []).filter (fun p => p.1 != keyTunerTime)) ++ [(keyTunerTime, w)]) }
 
 end SyneTune.Tuner
